@@ -91,6 +91,13 @@ CLAIMED["C16"] = dict(
     technique="symbolic execution of real code (CrossHair+z3) over arrival interleavings and datagram validity on a deterministic asyncio loop",
 )
 
+CLAIMED["C12"] = dict(
+    text="Bounded symbolic execution on a deterministic loop of concurrent send_packet calls on the real AsyncTCPNetworkClient (FairLock, connect on first use), the server-side _ConnectedClientAPI, and the real AsyncTLSStreamTransport (write backlog, fair transport locks, concurrent receiver on the want-read path) over a pass-through stub SSL object: 2-3 sender tasks x 1-2 two-chunk packets, every transport write suspends, a solver-chosen schedule of loop iterations, sender starts, peer bytes and one cancellation of a waiting sender, solver-chosen want-write faults. Asserted: every non-cancelled call returns; the wire is a sequence of whole packets, each once, per-sender order kept; nobody is stranded.",
+    design="4/C12",
+    technique="symbolic execution of real code (CrossHair+z3) over task schedules on a deterministic asyncio loop",
+    note="asyncio objects only. The thread-safe blocking clients (threading locks) are NOT claimed: OS-thread interleavings cannot be made symbolic by any installed engine; their lock discipline (timed acquisition, release only when held) is covered single-threaded by C11.",
+)
+
 NOT_APPLICABLE = {
     "C08": "TLS byte-transparency/encryption is decided inside OpenSSL's record layer (C code, cryptography): it cannot be executed symbolically by any installed engine; stubbing it would verify the stub, and running real OpenSSL realises every symbolic size (degenerates to concrete enumeration). See DESIGN.md section 5.",
     "C09": "Whether a cut at a byte offset of a real ciphertext stream yields SSLEOFError / SSLZeroReturnError / a protocol error is OpenSSL's partial-record parsing, not encodable; the EasyNetwork part is a three-way exception mapping. See DESIGN.md section 5.",
